@@ -481,6 +481,9 @@ def std_trait(engine, st, ty, tyb, tb, method, args, dest_ty, trait=None):
         return VecV(list(it.items))
     if tyb == 'Option' and tb == 'PartialEq' and method in ('eq', 'ne'):
         def veq(a, b):
+            a, b = deref_all(a), deref_all(b)
+            if isinstance(a, Opaque) and isinstance(b, Opaque):
+                return z3.BoolVal(a.name == b.name)
             if isinstance(a, EnumV) and isinstance(b, EnumV):
                 conds = [a.discr == b.discr]
                 for k in set(a.payload) & set(b.payload):
@@ -627,11 +630,11 @@ def iterator_method(engine, st, method, args, dest_ty):
         for x in it.items:
             acc = engine.call_closure(st, holder, [acc, x])
         return acc
-    if method == 'find':
+    if method in ('find', 'rfind'):
         clo = args[1]
         holder = RefV(Cell(clo), 0, True) if not isinstance(clo, RefV) else clo
         while it.items:
-            x = it.items.pop(0)
+            x = it.items.pop(0 if method == 'find' else -1)
             r = engine.call_closure(st, holder, [RefV(Cell(x), 0)])
             if engine.split_bool(st, r.t):
                 return mk_option(True, x, ty=dest_ty)
